@@ -91,17 +91,48 @@ def c12Observe (o : Obj) : String :=
     else "-"
   "[k " ++ ks ++ "][c " ++ ch ++ "][w " ++ wk ++ "][g " ++ gv ++ "]"
 
+/-- every object below a forest, pre-order over `_dict` (hidden children included), with the names on the way -/
+def c12Below : Forest → List (List Str × Obj)
+  | .nil => []
+  | .cons h kids rest =>
+    ([h.name], ⟨h, kids⟩) :: ((c12Below kids).map fun p => (h.name :: p.1, p.2)) ++ c12Below rest
+
+def c12Found (canon : Nat → Nat) : Except Err Found → String
+  | .ok (.obj r) => "o" ++ toString (canon r.hdr.oid)
+  | .ok (.derived src d) =>
+    "(derived " ++ c12Hex src.hdr.name ++ " " ++ c12Hex src.hdr.id
+      ++ " (a " ++ " ".intercalate (c12Sort (src.hdr.attrs.map fun p => "(" ++ c12Hex p.1 ++ " " ++ c12AVal p.2 ++ ")")) ++ ")"
+      ++ " " ++ c12Data d ++ ")"
+  | .error e => c12Err e
+
+/-- `A[v.id]` and `A[<names from A to v joined by '.'>]` for every container `A` of the tree and every `v` below it -/
+def c12Lookups (canon : Nat → Nat) (o : Obj) : String :=
+  let conts := (o :: (c12Below o.kids).map (·.2)).filter fun a => a.hdr.kind != .base
+  let one := fun (a : Obj) => (c12Below a.kids).map fun p =>
+    c12Found canon (lookup a p.2.hdr.id) ++ "," ++ c12Found canon (lookup a (joinDot p.1))
+  "[L " ++ " ".intercalate (conts.flatMap one) ++ "]"
+
 def c12State (s : State) : String :=
   let all := s.oids
   let canon := fun i => all.idxOf i
   let hs := (s.handles.zipIdx.filterMap fun (o, i) => o.map fun o =>
-    "h" ++ toString i ++ "=" ++ c12Obj canon o ++ c12Observe o)
+    "h" ++ toString i ++ "=" ++ c12Obj canon o ++ c12Observe o ++ c12Lookups canon o)
   let inv := s.handles.all (fun | some o => invObj o | none => true) && decide s.oids.Nodup
   "inv=" ++ (if inv then "1" else "0") ++ " " ++ " ".intercalate hs
 
-def c12Run (s : State) : List Op → List String
+def c12HOp? : Sexp → Option HOp
+  | list [atom "lookup", h, p, k] => do pure (.lookup (← asNat? h) (← c12Strs? p) (← c12Str? k))
+  | x => do pure (.op (← c12Op? x))
+
+def c12Run (s : State) : List HOp → List String
   | [] => []
-  | op :: ops =>
+  | .lookup h path key :: ops =>
+    match lookupAt s h path key with
+    | .error .outside => ["outside"]
+    | r =>
+      let canon := fun i => s.oids.idxOf i
+      ("L:" ++ c12Found canon r ++ " " ++ c12State s) :: c12Run s ops
+  | .op op :: ops =>
     match stepE s op with
     | .ok s' => ("ok " ++ c12State s') :: c12Run s' ops
     | .error .outside => ["outside"]
@@ -115,11 +146,11 @@ def handleTree : List Sexp → Option String
     let n ← c12Str? n
     pure (bytesToHex (unquote n))
   | [atom "c12-run", list ops] => do
-    let ops ← ops.mapM c12Op?
+    let ops ← ops.mapM c12HOp?
     pure (" ; ".intercalate (c12Run State.init ops))
   | [atom "c12-scope", list ops] => do
-    let ops ← ops.mapM c12Op?
-    pure (if ops.all Op.scope then "1" else "0")
+    let ops ← ops.mapM c12HOp?
+    pure (if (edits ops).all Op.scope then "1" else "0")
   | [atom "c12-nolit", n] => do
     let n ← c12Str? n
     pure (if noLit n.flatten then "1" else "0")
